@@ -2,6 +2,7 @@
 bundle references, resolved by the real elaborator and exporter, compared bit for bit with
 Python list slicing on the list of (signal, bit).  Observed only through the exported package
 (pkg_nets) and the public .width."""
+import re
 from vlib import env
 from vlib.spec import harness, parts_over, parts_product
 import hdl21 as h
@@ -175,10 +176,14 @@ def _W2(parts):
 
 def _BYW(parts):
     """thorough partitions, one per parent width (a partition must stay below ~600 paths)"""
-    out = [(f"{t}_w{w}", f"w1 == {w} and " + c) for t, c in parts for w in (1, 2)]
-    # width 3 holds most of the paths: split it once more by the first bound
-    out += [(f"{t}_w3_{tag}", f"w1 == 3 and {cl} and " + c) for t, c in parts
-            for tag, cl in (("an", "a1 < 0"), ("ap", "0 <= a1 < 99"), ("a_", "a1 == 99"))]
+    out = []
+    for t, c in parts:
+        out.append((f"{t}_w1", "w1 == 1 and " + c))
+        for w in (2, 3):
+            if re.search(r"(?<!or )a1 == [0-9]+", c):  # the family pins the first bound itself
+                out.append((f"{t}_w{w}", f"w1 == {w} and " + c))
+            else:  # widths 2 and 3 hold most of the paths: split them once more by the first bound
+                out += [(f"{t}_w{w}_{tag}", f"w1 == {w} and {cl} and " + c) for tag, cl in (("an", "a1 < 0"), ("ap", "0 <= a1 < 99"), ("a_", "a1 == 99"))]
     return out
 
 
